@@ -232,8 +232,8 @@ fn uri_ok(u: &Option<String>) -> bool {
 fn addr_ok(a: &str) -> bool {
     a.len() >= 3 && a.len() <= 90 && a.to_lowercase() == a
 }
-fn coq_stage(s: &StageSpec, denoms: &mut Ids) -> String {
-    format!("mkStage {} {} {} {}", s.start, s.end, denoms.id(&s.denom), s.limit)
+fn coq_stage(i: usize, s: &StageSpec, denoms: &mut Ids) -> String {
+    format!("mkStage {} {} {} {} {}", i, s.start, s.end, denoms.id(&s.denom), s.limit)
 }
 fn coq_opt_u64(o: Option<u64>) -> String {
     coq_opt_n(o)
@@ -380,7 +380,7 @@ fn run_case(w: &mut World, c: &Case) -> Outcome {
                 "CTwQuery {} {} {} {} {} {} {}",
                 coq_table(&t),
                 at,
-                coq_list(&stages.iter().map(|s| coq_stage(s, &mut denoms)).collect::<Vec<_>>()),
+                coq_list(&stages.iter().enumerate().map(|(i, s)| coq_stage(i, s, &mut denoms)).collect::<Vec<_>>()),
                 coq_strs(&roots),
                 coq_str(member),
                 coq_strs(proof),
@@ -546,6 +546,9 @@ fn run_case(w: &mut World, c: &Case) -> Outcome {
             let mut steps = 1;
             let mut any_ok = false;
             hist.push(format!("tiered:instantiate:{}", if inst.is_ok() { "ok" } else { "err" }));
+            // the harness's own ledger: identity i (list i, root i) and its window; windows follow
+            // accepted updates that respect the documented rule, identities never move
+            let mut ledger: Vec<StageSpec> = init.stages.clone();
             if let Ok(addr) = &inst {
                 let roots0 = query_roots_tiered(&app, addr).unwrap_or_default();
                 if roots0 != init.roots {
@@ -574,7 +577,8 @@ fn run_case(w: &mut World, c: &Case) -> Outcome {
                                 viol.push(("C14:tiered-rejected-call-wrote".to_string(), format!("{} was rejected but storage changed", what)));
                             }
                             if !swept.is_empty() {
-                                steps += sweep_tiered(&mut app, addr, &swept, specs_before, &what, &mut viol);
+                                steps += sweep_tiered(&mut app, addr, &swept, Some(ledger.clone()), &what, &mut viol);
+                                let _ = &specs_before;
                             }
                             hist.push(format!("tiered:migrate:{}", if r.is_ok() { "ok" } else { "err" }));
                             coq_ops.push(format!(
@@ -598,7 +602,7 @@ fn run_case(w: &mut World, c: &Case) -> Outcome {
                                         addr,
                                         &E::UpdateStageConfig(UpdateStageConfigMsg {
                                             stage_id: *id,
-                                            name: if id % 2 == 0 { Some("renamed".to_string()) } else { None },
+                                            name: if id % 2 == 0 { Some(format!("stage{}", id)) } else { None },
                                             start_time: start.map(Timestamp::from_nanos),
                                             end_time: end.map(Timestamp::from_nanos),
                                             mint_price: denom.as_ref().map(|d| coin(7, d.clone())),
@@ -644,12 +648,36 @@ fn run_case(w: &mut World, c: &Case) -> Outcome {
                             if r.is_err() && chain::storage_digest(&app, addr) != before {
                                 viol.push(("C14:tiered-rejected-call-wrote".to_string(), format!("{} by {} was rejected but storage changed", tag, sender)));
                             }
+                            if let (TieredOpKind::UpdateStage { id, start, end, denom, limit }, true) = (kind, r.is_ok()) {
+                                if (*id as usize) < ledger.len() {
+                                    let mut cand = ledger.clone();
+                                    let o = &mut cand[*id as usize];
+                                    if let Some(x) = start { o.start = *x; }
+                                    if let Some(x) = end { o.end = *x; }
+                                    if let Some(x) = denom { o.denom = x.clone(); }
+                                    if let Some(x) = limit { o.limit = *x; }
+                                    if schedule_ok(&cand) {
+                                        ledger = cand;
+                                    }
+                                }
+                            }
+                            let ids = stored_ids(&app, addr);
+                            if ids != (0..init.stages.len() as u64).collect::<Vec<_>>() {
+                                viol.push((
+                                    "C14:tiered-stage-order-changed".to_string(),
+                                    format!("after {} by {} ({}): the stored stages are now in the order {:?} while the roots stay paired by position", tag, sender, if r.is_ok() { "ok" } else { "err" }, ids),
+                                ));
+                            }
                             if !swept.is_empty() {
-                                steps += sweep_tiered(&mut app, addr, &swept, None, &format!("{} by {}", tag, sender), &mut viol);
+                                steps += sweep_tiered(&mut app, addr, &swept, Some(ledger.clone()), &format!("{} by {}", tag, sender), &mut viol);
                             }
                             hist.push(format!("tiered:{}:{}", tag, if r.is_ok() { "ok" } else { "err" }));
                             coq_ops.push(match coqm {
-                                Some(m) => format!("TExec {} {} {} {} {}", now, addrs.id(sender), m, coq_bool(r.is_ok()), coq_strs(&roots)),
+                                Some(m) => format!(
+                                    "TExec {} {} {} {} {} {}",
+                                    now, addrs.id(sender), m, coq_bool(r.is_ok()), coq_strs(&roots),
+                                    coq_list(&ids.iter().map(|x| x.to_string()).collect::<Vec<_>>())
+                                ),
                                 None => format!("TUnknown {} {} {} {}", now, addrs.id(sender), coq_bool(r.is_ok()), coq_strs(&roots)),
                             });
                         }
@@ -684,7 +712,7 @@ fn run_case(w: &mut World, c: &Case) -> Outcome {
                 coq_coins(&init.funds, &mut denoms),
                 coq_strs(&init.roots),
                 coq_bool(uris_ok),
-                coq_list(&init.stages.iter().map(|s| coq_stage(s, &mut denoms)).collect::<Vec<_>>()),
+                coq_list(&init.stages.iter().enumerate().map(|(i, s)| coq_stage(i, s, &mut denoms)).collect::<Vec<_>>()),
                 coq_list(&init.admins.iter().map(|x| addrs.id(x).to_string()).collect::<Vec<_>>()),
                 coq_bool(init.admins.iter().all(|x| addr_ok(x))),
                 coq_bool(init.mutable),
@@ -694,11 +722,25 @@ fn run_case(w: &mut World, c: &Case) -> Outcome {
             Outcome { coq, viol, nontrivial: inst.is_ok() && (any_ok || ops.is_empty()), hist, observed: format!("instantiate {:?}", inst.as_ref().map(|a| a.to_string())), steps }
         }
         Case::Mint { variant, tiered, entries, sender, stage, alloc, proof_of, label, migrate_from } => {
-            use crate::w_sale::{SaleCfg, SaleWorld, WlKind};
-            let mut cfg = SaleCfg::basic(*variant);
-            cfg.wl = WlKind::None;
-            cfg.num_tokens = 20;
-            let mut sw = SaleWorld::new(cfg).expect("sale world");
+            // 4, 5: vending-minter-merkle-wl(-featured) through the vending factory (w_sale);
+            // 6: open-edition-minter-merkle-wl through the open-edition factory (oe_world)
+            struct MintWorld {
+                app: App,
+                minter: Addr,
+                wl_code: BTreeMap<&'static str, u64>,
+                t0: u64,
+            }
+            let mut sw = if *variant == 6 {
+                let w = crate::oe_world::OeWorld::new(crate::oe_world::OeCfg::basic(2)).expect("open-edition world");
+                MintWorld { app: w.app, minter: w.minter, wl_code: w.wl_code, t0: w.t0 }
+            } else {
+                use crate::w_sale::{SaleCfg, SaleWorld, WlKind};
+                let mut cfg = SaleCfg::basic(*variant);
+                cfg.wl = WlKind::None;
+                cfg.num_tokens = 20;
+                let w = SaleWorld::new(cfg).expect("sale world");
+                MintWorld { app: w.app, minter: w.minter, wl_code: w.wl_code, t0: w.t0 }
+            };
             let t0 = sw.t0;
             let leaves: Vec<String> = entries.iter().map(|(st, a, al)| leaf_string(*st, a, *al)).collect();
             let b = build_tree(*tiered, &leaves, None);
@@ -759,8 +801,8 @@ fn run_case(w: &mut World, c: &Case) -> Outcome {
             let listed = leaves.iter().any(|l| *l == composed);
             if !listed && r.is_ok() {
                 viol.push((
-                    "C14:minter-foreign-proof-accepted".to_string(),
-                    format!("{} minted with a proof although \"{}\" is not a leaf of the whitelist tree ({})", sender, composed, label),
+                    "C14:minter-unlisted-leaf-accepted".to_string(),
+                    format!("{} minted with stage {:?}, allocation {:?} although \"{}\" (the leaf the documented format prescribes) is not in the list ({})", sender, stage, alloc, composed, label),
                 ));
             }
             if label == "own" && *alloc != Some(0) && r.is_err() {
@@ -831,6 +873,18 @@ fn sweep_flat(app: &App, addr: &Addr, b: &Built, after: &str, viol: &mut Vec<(St
 /// the same for the tiered contract: in the middle of every stage the contract currently
 /// stores, the entries of that stage's list are accepted with their own
 /// proofs, outsiders and entries of other stages' lists are not
+/// stage identities in stored order: the names given at instantiate are stage0, stage1, ...
+fn stored_ids(app: &App, addr: &Addr) -> Vec<u64> {
+    tiered_whitelist_merkletree::state::CONFIG
+        .load(&*app.contract_storage(addr))
+        .map(|c| c.stages.iter().map(|s| s.name.strip_prefix("stage").and_then(|k| k.parse::<u64>().ok()).unwrap_or(999)).collect())
+        .unwrap_or_default()
+}
+/// the documented rule for a re-scheduled list: every window non-empty, every later stage
+/// starts no earlier than every earlier one ends (so no stage ever passes a neighbour)
+fn schedule_ok(l: &[StageSpec]) -> bool {
+    (0..l.len()).all(|i| l[i].start < l[i].end && (i + 1..l.len()).all(|j| l[j].start >= l[i].end))
+}
 /// the stage windows as stored now (raw CONFIG item: the Stages query indexes the roots and
 /// panics when there are fewer roots than stages)
 fn stored_specs(app: &App, addr: &Addr) -> Result<Vec<StageSpec>, String> {
@@ -1263,7 +1317,7 @@ fn gen_cases(a: &Args) -> Vec<Case> {
     cases.push(Case::Leaf { stage: None, sender: "addr0001".into(), alloc: None });
 
     // ---- minter side: a proof issued for one address is useless to another
-    for variant in [4usize, 5] {
+    for variant in [4usize, 5, 6] {
         for tiered in [false, true] {
             let a: Vec<String> = (0..5u64).map(|i| stars_addr(i, 900 + variant as u64)).collect();
             let out = stars_addr(77, 901);
@@ -1302,6 +1356,35 @@ fn gen_cases(a: &Args) -> Vec<Case> {
                 }
                 cases.push(Case::Mint { variant, tiered, entries: entries.clone(), sender: a[1].clone(), stage: Some(1), alloc: Some(3), proof_of: 0, label: "proof-of-A-presented-by-B".into(), migrate_from: Some(from.to_string()) });
                 cases.push(Case::Mint { variant, tiered, entries: entries.clone(), sender: out.clone(), stage: None, alloc: None, proof_of: 3, label: "proof-of-A-presented-by-outsider".into(), migrate_from: Some(from.to_string()) });
+            }
+        }
+    }
+    // stage x listed leaf format, every Merkle minter variant, both whitelist kinds: each listed
+    // leaf format (addr, addr+alloc, 0addr, 0addr+alloc, 1addr, 1addr+alloc, 2addr+alloc,
+    // 4294967295addr) is presented by its owner with every stage value -- only the exact
+    // (stage, sender, allocation) it was listed with may mint (cross cases: the stage-less leaf
+    // presented as stage 0 and the other way round; tiered: 1 is the active stage id)
+    for variant in [4usize, 5, 6] {
+        for tiered in [false, true] {
+            let a: Vec<String> = (0..8u64).map(|i| stars_addr(i, 950 + variant as u64)).collect();
+            let entries: Vec<(Option<u32>, String, Option<u32>)> = vec![
+                (None, a[0].clone(), None),
+                (None, a[1].clone(), Some(7)),
+                (Some(0), a[2].clone(), None),
+                (Some(0), a[3].clone(), Some(5)),
+                (Some(1), a[4].clone(), None),
+                (Some(1), a[5].clone(), Some(3)),
+                (Some(2), a[6].clone(), Some(2)),
+                (Some(u32::MAX), a[7].clone(), None),
+            ];
+            for (i, (st, ad, al)) in entries.iter().enumerate() {
+                for stage in [None, Some(0u32), Some(1), Some(2), Some(u32::MAX)] {
+                    let label = if stage == *st { "own".to_string() } else { format!("listed-{}-presented-as-{}", st.map(|x| x.to_string()).unwrap_or("none".into()), stage.map(|x| x.to_string()).unwrap_or("none".into())) };
+                    cases.push(Case::Mint { variant, tiered, entries: entries.clone(), sender: ad.clone(), stage, alloc: *al, proof_of: i, label, migrate_from: None });
+                }
+                // the allocation dropped / added with the right stage
+                let other_al = if al.is_some() { None } else { Some(1) };
+                cases.push(Case::Mint { variant, tiered, entries: entries.clone(), sender: ad.clone(), stage: *st, alloc: other_al, proof_of: i, label: "allocation-dropped-or-added".into(), migrate_from: None });
             }
         }
     }
@@ -1604,6 +1687,55 @@ fn tiered_hist_cases(a: &Args, rng: &mut Rng) -> Vec<Case> {
                     TieredOp::Query { now: mid(0), member: "evil".into(), proof: vec![] },
                 ],
             });
+        }
+    }
+    // re-scheduling by the admin, every stage index: in place, shrink, grow to touch, overlap or
+    // cross the previous / next stage, swap order completely, move before the first / after the
+    // last, into the gap -- before the stages and while one is running; then restore
+    for id in 0..3usize {
+        let w = &stages;
+        let (st, en) = (w[id].start, w[id].end);
+        let mut wins: Vec<(&str, Option<u64>, Option<u64>)> = vec![
+            ("same", Some(st), Some(en)), ("none", None, None), ("shrink", Some(st + 10 * SEC), Some(en - 10 * SEC)),
+            ("before-first", Some(w[0].start - 50 * SEC), Some(w[0].start - 20 * SEC)),
+            ("after-last", Some(w[2].end + 10 * SEC), Some(w[2].end + 60 * SEC)),
+            ("into-gap", Some(w[1].end + 10 * SEC), Some(w[2].start - 10 * SEC)),
+            ("fill-gap-exactly", Some(w[1].end), Some(w[2].start)),
+        ];
+        if id < 2 {
+            let nx = &w[id + 1];
+            wins.push(("touch-next", None, Some(nx.start)));
+            wins.push(("overlap-next", None, Some(nx.start + 5 * SEC)));
+            wins.push(("inside-next", Some(nx.start + SEC), Some(nx.end - SEC)));
+            wins.push(("swap-after-next", Some(nx.end + SEC), Some(nx.end + 20 * SEC)));
+            wins.push(("cover-next", Some(st), Some(nx.end + SEC)));
+        }
+        if id > 0 {
+            let pv = &w[id - 1];
+            wins.push(("touch-prev", Some(pv.end), None));
+            wins.push(("overlap-prev", Some(pv.end - 5 * SEC), None));
+            wins.push(("inside-prev", Some(pv.start + SEC), Some(pv.end - SEC)));
+            wins.push(("swap-before-prev", Some(pv.start - 30 * SEC), Some(pv.start - 10 * SEC)));
+        }
+        for (wi, (_lab, ns, ne)) in wins.iter().enumerate() {
+            for (ti, t) in [BASE + 5, mid(0), mid(1)].into_iter().enumerate() {
+                if !a.thorough() && (wi + ti + id) % 3 == 2 && wi > 2 {
+                    continue;
+                }
+                let sender = if (wi + ti) % 7 == 6 { STRANGER } else if ti == 1 { ADMIN2 } else { CREATOR };
+                let up = |now: u64, who: &str, s: Option<u64>, e: Option<u64>| TieredOp::Exec {
+                    now, sender: who.to_string(), kind: TieredOpKind::UpdateStage { id: id as u32, start: s, end: e, denom: None, limit: None },
+                };
+                let nm = (ns.unwrap_or(st) + ne.unwrap_or(en)) / 2;
+                v.push(Case::TieredHist { lists: vec![],
+                    now: BASE, init: d.clone(),
+                    ops: vec![
+                        q(id, 0, mid(id)), up(t, sender, *ns, *ne),
+                        q(0, 0, mid(0)), q(1, 0, mid(1)), q(2, 0, mid(2)), q(id, 1, nm), q((id + 1) % 3, 0, nm), q((id + 2) % 3, 0, nm),
+                        up(t + 1, CREATOR, Some(st), Some(en)), q(id, 0, mid(id)), q((id + 1) % 3, 0, mid(id)),
+                    ],
+                });
+            }
         }
     }
     // migrate grid (as for the flat contract), at instants before / inside / after the stages
